@@ -1,2 +1,117 @@
-import UberjobModel.Basic
-def main : IO Unit := IO.println Uberjob.version
+import UberjobModel.Model.Engine
+/-!
+  Line-protocol driver for the executable models (one request per line, one reply per line).
+  Used by the Python harness for the correspondence checks (T2/T3).
+-/
+open Uberjob
+
+namespace Drv
+
+def nats (s : String) : List Nat :=
+  (s.splitOn " ").filterMap (fun t => t.trimAscii.toString.toNat?)
+
+def showItem : Engine.Item → String
+  | .node x => s!"n{x}"
+  | .done => "D"
+
+def showW : Engine.W → String
+  | .idle => "idle"
+  | .held i => s!"held:{showItem i}"
+  | .running x => s!"run:{x}"
+  | .releasing x todo => s!"rel:{x}:{todo.length}"
+  | .finishing l => if l then "fin:D" else "fin"
+  | .exited => "exit"
+
+def showCoord : Engine.Coord → String
+  | .spawning i => s!"spawning:{i}"
+  | .waiting => "waiting"
+  | .stopping i => s!"stopping:{i}"
+  | .putting k i => s!"putting:{k}:{i}"
+  | .joining i => s!"joining:{i}"
+  | .returned i => s!"returned:{i}"
+
+def sortStrs (l : List String) : List String := (l.toArray.qsort (· < ·)).toList
+
+def showSt (g : Engine.Graph) (s : Engine.St) : String :=
+  let q := " ".intercalate (sortStrs (s.queue.map showItem))
+  let multi := g.nodes.filter (fun y => g.predCount y ≥ 2)
+  let rem := " ".intercalate (multi.map (fun y => s!"{y}:{s.rem y}"))
+  let first := match s.first with | some x => toString x | none => "-"
+  let ws := " ".intercalate (s.ws.map showW)
+  s!"q=[{q}] unf={s.unfinished} stop={s.stop} errs={s.errs} first={first} rem=[{rem}] ws=[{ws}] coord={showCoord s.coord} begun={s.begun} okd={s.okd} failed={s.failed} skipped={s.skipped}"
+
+def parseItem (t : String) : Option Engine.Item :=
+  if t == "D" then some .done
+  else if t.startsWith "n" then (t.drop 1).toString.toNat?.map .node else none
+
+def parseLabel (ts : List String) : Option Engine.Label :=
+  match ts with
+  | ["spawn"] => some .spawn
+  | ["get", w, i] => do some (.get (← w.toNat?) (← parseItem i))
+  | ["check", w] => do some (.check (← w.toNat?))
+  | ["finOk", w] => do some (.finOk (← w.toNat?))
+  | ["finFail", w] => do some (.finFail (← w.toNat?))
+  | ["release", w, y] => do some (.release (← w.toNat?) (← y.toNat?))
+  | ["taskDone", w] => do some (.taskDone (← w.toNat?))
+  | ["joinReturn"] => some .joinReturn
+  | ["interrupt"] => some .interrupt
+  | ["setStop"] => some .setStop
+  | ["putDone"] => some .putDone
+  | ["joined"] => some .joined
+  | _ => none
+
+structure Ctx where
+  g : Engine.Graph := Engine.Graph.ofEdges [] []
+  cfg : Engine.Cfg := ⟨1, some 0⟩
+  st : Engine.St := Engine.init (Engine.Graph.ofEdges [] [])
+  dead : Bool := false      -- a label was rejected; later events of this trace are not applied
+
+def parseEdges (s : String) : List (Nat × Nat) :=
+  (s.splitOn " ").filterMap (fun t =>
+    match t.trimAscii.toString.splitOn "," with
+    | [a, b] => do some ((← a.toNat?), (← b.toNat?))
+    | _ => none)
+
+/-- `engine W MAXERR|none | n0 n1 ... | u,v u,v ...` -/
+def cmdEngine (rest : String) : Ctx × String :=
+  match rest.splitOn "|" with
+  | [hd, ns, es] =>
+    match (hd.trimAscii.toString.splitOn " ").filter (· ≠ "") with
+    | [w, me] =>
+      match w.toNat? with
+      | some w =>
+        let g := Engine.Graph.ofEdges (nats ns) (parseEdges es)
+        ({ g := g, cfg := ⟨w, me.toNat?⟩, st := Engine.init g }, "ok")
+      | none => ({}, "bad-op")
+    | _ => ({}, "bad-op")
+  | _ => ({}, "bad-op")
+
+def step (c : Ctx) (line : String) : Ctx × String :=
+  let line := line.trimAscii.toString
+  match (line.splitOn " ").filter (· ≠ "") with
+  | "engine" :: _ => cmdEngine (line.drop 6).toString
+  | "ev" :: ts =>
+    if c.dead then (c, "dead") else
+    match parseLabel ts with
+    | none => (c, "bad-op")
+    | some l =>
+      match Engine.step? c.g c.cfg c.st l with
+      | some s' => ({ c with st := s' }, "ok")
+      | none => ({ c with dead := true }, "reject")
+  | ["snap"] => (c, showSt c.g c.st)
+  | ["preds", y] => (c, match y.toNat? with | some y => toString (c.g.preds y) | none => "bad-op")
+  | _ => (c, "bad-op")
+
+partial def loop (h : IO.FS.Stream) (out : IO.FS.Stream) (c : Ctx) : IO Unit := do
+  let line ← h.getLine
+  if line.isEmpty then return ()
+  let (c', reply) := step c line
+  out.putStrLn reply
+  loop h out c'
+
+end Drv
+
+def main : IO Unit := do
+  let out ← IO.getStdout
+  Drv.loop (← IO.getStdin) out {}
+  out.flush
